@@ -38,6 +38,7 @@ func (x *Run) verifyContract(con *Contract) []*State {
 	}
 	if len(con.Impls) == 0 {
 		st := newState()
+		x.initTables(st)
 		args := x.paramVals(st, con.Fn)
 		run(args, st)
 		return finals
@@ -88,6 +89,7 @@ func (x *Run) lookupType(name string) types.Type {
 
 func (x *Run) verifySweep(sw *Sweep) []*State {
 	st := newState()
+	x.initTables(st)
 	args := x.paramVals(st, sw.Target)
 	fr := &Frame{fn: sw.Target, env: map[ssa.Value]Val{}, names: map[string]Val{}, mode: ModeNormal, cut: map[*ssa.BasicBlock]bool{}, unroll: map[*ssa.BasicBlock]int{}, selfRun: true}
 	var bindings []Val
@@ -113,4 +115,120 @@ func (x *Run) verifySweep(sw *Sweep) []*State {
 		}
 	}
 	return finals
+}
+
+// checkNoBlock: structural bounded-blocking check.  Every channel send in fn
+// (and its closures) must be a case of a select with another case or default:
+// a bare send blocks for ever when the receiver is gone, so whatever the
+// sender holds (a session entry, a goroutine) is never released.
+func (x *Run) checkNoBlock(fn *ssa.Function) {
+	var walk func(f *ssa.Function)
+	walk = func(f *ssa.Function) {
+		n := 0
+		for _, b := range f.Blocks {
+			for _, ins := range b.Instrs {
+				switch i := ins.(type) {
+				case *ssa.Send:
+					n++
+					x.obligeStatic(newState(), fmt.Sprintf("bounded-block.%s.send#%d", x.fnShort(f), n), "bounded-block", false, i.Pos(), "bare blocking channel send")
+				case *ssa.Select:
+					for _, s := range i.States {
+						if s.Dir == types.SendOnly {
+							n++
+							ok := len(i.States) > 1 || !i.Blocking
+							x.obligeStatic(newState(), fmt.Sprintf("bounded-block.%s.send#%d", x.fnShort(f), n), "bounded-block", ok, i.Pos(), "send inside select")
+						}
+					}
+				}
+			}
+		}
+		for _, an := range f.AnonFuncs {
+			walk(an)
+		}
+	}
+	walk(fn)
+}
+
+// initTables imports package-level tables by executing the package
+// initialiser symbolically, and checks that nothing else stores to them.
+func (x *Run) initTables(st *State) {
+	if len(x.spec.tables) == 0 {
+		return
+	}
+	byPkg := map[*ssa.Package][]*ssa.Global{}
+	for _, name := range sortedKeys(x.spec.tables) {
+		i := strings.LastIndex(name, ".")
+		if i < 0 {
+			continue
+		}
+		// tables are imported for units of the package that declares them
+		if x.curCon == nil || x.curCon.Fn.Pkg == nil || x.curCon.Fn.Pkg.Pkg.Path() != name[:i] {
+			continue
+		}
+		for _, p := range x.prog.AllPackages() {
+			if p.Pkg.Path() == name[:i] {
+				if g, ok := p.Members[name[i+1:]].(*ssa.Global); ok {
+					byPkg[p] = append(byPkg[p], g)
+				}
+			}
+		}
+	}
+	for p, gs := range byPkg {
+		init := p.Func("init")
+		if init == nil {
+			continue
+		}
+		tmp := newState()
+		tmp.nfresh = 500000
+		saveUnit := x.unit
+		fr := &Frame{fn: init, env: map[ssa.Value]Val{}, names: map[string]Val{}, mode: ModeNormal, cut: map[*ssa.BasicBlock]bool{}, unroll: map[*ssa.BasicBlock]int{}, selfRun: true, isInit: true}
+		x.inInit = true
+		outs := x.runFrame(fr, nil, nil, tmp)
+		x.inInit = false
+		x.unit = saveUnit
+		if len(outs) != 1 || outs[0].panic {
+			x.unsupported(fmt.Sprintf("package init of %s has %d symbolic outcomes", p.Pkg.Path(), len(outs)), init.Pos())
+			continue
+		}
+		copiedPC := false
+		for _, g := range gs {
+			if v, ok := outs[0].st.globals[g]; ok {
+				st.globals[g] = v
+			}
+			if !copiedPC {
+				copiedPC = true
+				for _, c := range outs[0].st.pc {
+					st.assume(pcPlain(c)) // definitional equalities introduced while evaluating the initialiser
+				}
+			}
+			// no function other than init stores to the table
+			ok := true
+			for _, m := range p.Members {
+				f, isF := m.(*ssa.Function)
+				if !isF || f == init {
+					continue
+				}
+				if storesToGlobal(f, g) {
+					ok = false
+				}
+			}
+			x.obligeStatic(st, "table.noglobalstore."+g.Name(), "table", ok, g.Pos(), "package-level table written only by its initialiser")
+		}
+	}
+}
+
+func storesToGlobal(f *ssa.Function, g *ssa.Global) bool {
+	for _, b := range f.Blocks {
+		for _, ins := range b.Instrs {
+			if s, ok := ins.(*ssa.Store); ok && s.Addr == ssa.Value(g) {
+				return true
+			}
+		}
+	}
+	for _, an := range f.AnonFuncs {
+		if storesToGlobal(an, g) {
+			return true
+		}
+	}
+	return false
 }
